@@ -1,11 +1,10 @@
 use bc_envelope::prelude::*;
 fn main() {
-    let e = Envelope::try_from_cbor_data(hex::decode("d8c883d8c9714d4b353439392e312e656339333262383182a106d8c9d99d7540a10fd8c9d99c524c467c769ffc8fa1719edb176082a108d8c9fb3ddb7cdfd9d7bdbba1d8c9714d4b353439392e322e6439383737333861d8c9714d4b353439392e332e3462383966653938").unwrap()).unwrap();
-    println!("{}", e.format_flat());
-    let r = std::panic::catch_unwind(|| Envelope::sskr_join(&[&e]).is_ok());
-    println!("join: {:?}", r.is_ok());
-    // minimal
-    let m = Envelope::new("x").add_assertion(known_values::SSKR_SHARE, dcbor::CBOR::to_tagged_value(40309u64, dcbor::CBOR::to_byte_string([])));
-    let r = std::panic::catch_unwind(|| Envelope::sskr_join(&[&m]).is_ok());
-    println!("minimal join panics: {:?}", r.is_err());
+    for v in [4294967296.0f32, 2147483648.0f32, 65536.0f32, 9.223372036854776e18f32, 1.8446742974197924e19f32, -4294967296.0f32, -1.8446744073709552e19f32, 3.0e10f32] {
+        let e = Envelope::new(v);
+        let e64 = Envelope::new(v as f64);
+        println!("{:e}: f32 -> {}   f64 -> {}  same digest {}", v, hex::encode(e.to_cbor_data()), hex::encode(e64.to_cbor_data()), e.digest() == e64.digest());
+        let back = Envelope::try_from_cbor_data(e.to_cbor_data());
+        println!("     decode own encoding: {:?}  extract u64: {:?}  extract f64: {:?}", back.is_ok(), e.extract_subject::<u64>().ok(), e.extract_subject::<f64>().ok());
+    }
 }
